@@ -38,8 +38,9 @@ def instance(s, rng):
     st = s['st']
     n = st['n']
     lb0, ub0 = q(st['bp'][0]), q(st['bp'][1])
-    lbs = [lb0] + [WIDE[0]] * (n - 1)
-    ubs = [ub0] + [WIDE[1]] * (n - 1)
+    olb, oub = {'box': WIDE, 'free': (None, None), 'ub': (None, WIDE[1])}[st['others']]
+    lbs = [lb0] + [olb] * (n - 1)
+    ubs = [ub0] + [oub] * (n - 1)
     xs = np.zeros(n)
     if st['cons'] == 'bounds_active':
         xs[0] = float(ub0)
@@ -141,13 +142,20 @@ def chunk(idx, items):
         try:
             with warnings.catch_warnings():
                 warnings.simplefilter('ignore')
+                skw = {}
+                if st['opts'] == 'nohess_tol':
+                    skw = {'use_hessian': False, 'tol': 1e-9}
+                elif st['opts'] == 'x0_maxiter':
+                    lo = np.array([-np.inf if l is None else float(l) for l in ins['lbs']])
+                    hi = np.array([np.inf if u is None else float(u) for u in ins['ubs']])
+                    skw = {'x0': np.clip(ins['xs'] + 0.25, lo, hi), 'maxiter': 400}
                 try:
-                    sol = prob.solve(method=st['m'])
+                    sol = prob.solve(method=st['m'], **skw)
                 except Exception as e:
                     sol = e
         finally:
             ss.minimize = real
-        site = 'Solve(%s;%s;%s;%s;%s;%s;%s)' % (st['m'], st['obj'], st['cons'], st['sense'], st['spell'], st['cform'], st['oform'])
+        site = 'Solve(%s;%s;%s;%s;%s;%s;%s%s)' % (st['m'], st['obj'], st['cons'], st['sense'], st['spell'], st['cform'], st['oform'], '' if st['opts'] == 'default' else ';' + st['opts'])
         text = {k: (v if not isinstance(v, list) else str(v)) for k, v in st.items()}
         part['evaluations'] += 1
         part['traces_validated_against_impl'] += 1
@@ -180,9 +188,19 @@ def chunk(idx, items):
                 bad('%s %s handed to the solver' % (name, 'unexpectedly' if have else 'not'))
                 break
         else:
-            x0_want = [float(Fr(pred['x0'][0], pred['x0'][1]))] + [float(WIDE[0] + max(Fr(1, 10000), Fr(1, 100) * (WIDE[1] - WIDE[0])))] * (n - 1)
+            if pred['x0_caller']:
+                x0_want = [float(v) for v in skw['x0']]
+            else:
+                x0_want = [float(Fr(pred['x0'][0], pred['x0'][1]))] + [float(Fr(pred['x0others'][0], pred['x0others'][1]))] * (n - 1)
             if not np.allclose(kw['x0'], x0_want, rtol=0, atol=1e-12):
-                bad('starting point differs from the starting-point rule', {'got': list(map(float, kw['x0'])), 'expected': x0_want})
+                bad('starting point differs from %s' % ("the caller's x0" if pred['x0_caller'] else 'the starting-point rule'), {'got': list(map(float, kw['x0'])), 'expected': x0_want})
+                continue
+            if (kw.get('tol') is not None) != pred['tol_passed'] or (pred['tol_passed'] and kw.get('tol') != skw['tol']):
+                bad('tol handed to the solver is not the caller\'s', {'got': kw.get('tol')})
+                continue
+            have_mi = (kw.get('options') or {}).get('maxiter')
+            if (have_mi is not None) != pred['maxiter_passed'] or (pred['maxiter_passed'] and have_mi != skw['maxiter']):
+                bad('maxiter handed to the solver is not the caller\'s', {'got': kw.get('options')})
                 continue
             if kw.get('bounds') is not None:
                 wb = [(-np.inf if l is None else float(l), np.inf if u is None else float(u)) for l, u in zip(ins['lbs'], ins['ubs'])]
@@ -215,6 +233,10 @@ def chunk(idx, items):
             dkw['hess'] = ins['H']
         if pred['has_bounds']:
             dkw['bounds'] = [(-np.inf if l is None else float(l), np.inf if u is None else float(u)) for l, u in zip(ins['lbs'], ins['ubs'])]
+        if pred['tol_passed']:
+            dkw['tol'] = skw['tol']
+        if pred['maxiter_passed']:
+            dkw['options'] = {'maxiter': skw['maxiter']}
         if pred['n_cons']:
             dkw['constraints'] = [{'type': pred['con_type'], 'fun': lambda x: ins['a'] @ x - ins['b'], 'jac': lambda x: ins['a']}]
         with warnings.catch_warnings():
@@ -253,7 +275,14 @@ def run(report, tier):
         TABLE[skey(s['st'])] = s['pred']
     rng = common.rng('C09')
     if tier == 'quick':
-        sample = rng.sample(structs, 2000)
+        # one structure of every (method, options, constraint pattern, bounds of the others, bound pair) stratum, then a seeded fill
+        groups = {}
+        for s in structs:
+            st = s['st']
+            groups.setdefault((st['m'], st['opts'], st['cons'], st['others'], str(st['bp'])), []).append(s)
+        sample = [rng.choice(groups[k]) for k in sorted(groups)]
+        report.extra['strata (method, options, constraints, other bounds, bound pair) all covered'] = len(groups)
+        sample += rng.sample(structs, 1200)
         items = [(s, 0) for s in sample]
     else:
         items = [(s, k) for s in structs for k in range(2)]
